@@ -491,6 +491,9 @@ def summarise(prop, tier, seed, fres, jobs, by_id, wall, extra_bounded=None):
         'functions_under_contract': functions,
         'inlined_callees': sorted(inlined),
         'discharged_by_backend': by_solver,
+        'unsat_answers_asked_twice': sum(1 for o in by_id.values() if any('/again' in str(t[0]) for t in o.get('tried', []))),
+        'unsat_answers_not_repeated': sum(1 for o in by_id.values()
+                                          if any('/again' in str(t[0]) and t[1] != 'unsat' for t in o.get('tried', []))),
         'solver_time_s': round(solver_time, 2),
         'solver_time_max_s': round(solver_max, 2),
         'undecided': undecided,
